@@ -16,7 +16,7 @@ RULE = ("Three generated dimensions. (1) Sequential: N in 2..6 (and >= 101 throu
         "shared path (the trash dir and its ancestors); exactly one runs at a time; schedules = "
         "every schedule with <= 1 preemption (quick) / <= 2 preemptions (thorough) of the core "
         "scenarios {same name x2, x3, first use of a non-existent trash dir, file vs directory "
-        "of the same name, collision at index >= 100 with identical pseudo-random suffixes} as an "
+        "of the same name, collision at index >= 100 with identical pseudo-random suffixes, two processes given the SAME source and a trash dir that does not exist yet} as an "
         "exhaustive grid, plus Hypothesis-generated random segment schedules. (3) Free-running: "
         "8 truly parallel trash-put processes on same-named files. Oracle: every process that "
         "exited 0 owns a distinct complete info/payload pair whose payload deep-equals its "
@@ -29,7 +29,7 @@ ASSUMPTIONS = ["scheduling points are os-level operations on shared paths; proce
                "bounded-preemption enumeration (CHESS style), deeper interleavings only by random schedules"]
 EXHAUSTIVE_GRID = True
 
-SCEN = ["same2", "same3", "first_use", "file_vs_dir", "collision100", "topdir_first_use"]
+SCEN = ["same2", "same3", "first_use", "file_vs_dir", "collision100", "topdir_first_use", "same_source"]
 
 
 def examples(tier):
@@ -149,7 +149,7 @@ def world(scen, uid=1000):
     nodes = []
     tdir = home + "/.local/share/Trash"
     root = home
-    if scen == "topdir_first_use":
+    if scen in ("topdir_first_use", "same_source"):
         tdir, root = "/vol/.Trash-%d" % uid, "/vol"
     n = 3 if scen == "same3" else 2
     srcs = []
@@ -160,7 +160,11 @@ def world(scen, uid=1000):
         else:
             nodes.append({"p": p, "t": "f", "c": "content of process %d" % i})
         srcs.append(p)
-    if scen not in ("first_use", "topdir_first_use"):
+    if scen == "same_source":
+        # two processes are given the SAME path (a double click, two scripts): one of them loses the
+        # race for the rename and fails - it must fail without harming what the other one trashed
+        srcs = [srcs[0], srcs[0]]
+    if scen not in ("first_use", "topdir_first_use", "same_source"):
         nodes += [{"p": tdir + "/files", "t": "d", "m": 0o700}, {"p": tdir + "/info", "t": "d", "m": 0o700}]
     if scen == "collision100":
         for j in range(100):
@@ -208,12 +212,16 @@ def run_case(case):
         out.classes += ["free_running:%d" % k]
     after = sandbox.snapshot()
     codes = [r.code for r in results]
+    if case.get("scen") == "same_source" and mode == "sched":
+        if all(c == 0 for c in codes):
+            out.fail("double_success", "both processes report success for the one entry %s" % srcs[0], **tags)
+        srcs, codes = srcs[:1], [0 if any(c == 0 for c in codes) else codes[0]]
     for r in results:
         if r.code not in (0, 74):
             out.fail("process_crashed", "a trash-put process exited %d: %r" % (r.code, r.err[-300:]), **tags)
     succ = judge(out, before, after, tdir, srcs, codes, tags)
     out.classes.append("successes:%d" % succ)
-    if succ >= 2:
+    if succ >= 2 or (succ >= 1 and case.get("scen") == "same_source"):
         shape = [[p, k if k < 1000 else -1] for p, k in case.get("segs", [])]
         out.key = [case["scen"], mode, shape if mode == "sched" else case.get("round")]
         out.sample = {"scenario": case["scen"], "schedule_segments": case.get("segs"),
